@@ -30,6 +30,15 @@ fn element_exprs() -> gen::VS {
         // keys that need var's path rules: backslash escapes with and without a dot, dotted paths
         1 => select(vec!["a\\b", "qty\\", "a\\.b", "x.y", "ab", "a.b"]).prop_map(|k| json!({"var": k})),
         1 => Just(json!({"merge": [{"var": ""}, "x"]})),
+        // keys computed from the element itself, differently for each element
+        1 => Just(json!({"var": {"var": "pick"}})),
+        1 => Just(json!({"var": [{"var": "pick"}, "no-pick"]})),
+        1 => Just(json!({"var": {"cat": ["v_", {"var": "pick"}]}})),
+        1 => Just(json!({"missing": [{"var": "pick"}, "a"]})),
+        // decisions that depend on the element only through missing / missing_some
+        1 => Just(json!({"if": [{"missing": ["a"]}, "incomplete", "ok"]})),
+        1 => Just(json!({"and": [{"missing": ["a"]}, true]})),
+        1 => Just(json!({"or": [{"missing_some": [1, ["a", "b"]]}, "none-missing"]})),
         1 => gen::scalars(),
         1 => Just(json!([])),
         1 => Just(json!({"if": [{"var": ""}, "T", "F"]})),
@@ -67,6 +76,7 @@ fn elements() -> gen::VS {
         1 => Just(json!({"b": 2, "outer": "shadow"})),
         1 => Just(json!({"ab": 1, "a\\b": 2, "a.b": 3, "a": {"b": 4}, "qty": 5, "qty\\": 6, "x": {"y": 7}})),
         1 => Just(json!({"ab": 3})),
+        2 => select(vec![json!({"pick": "a", "a": 1, "b": 2, "v_a": 0, "v_b": 1}), json!({"pick": "b", "a": 3, "b": 4, "v_a": 0, "v_b": 1}), json!({"pick": "v_a", "v_a": "x"}), json!({"pick": "zz"}), json!({"b": 2}), json!({})]),
         2 => vec(gen::small_ints(), 0..=3).prop_map(Value::Array),
         1 => Just(json!([[1, 2], [3]])),
         1 => gen::op_shaped(),
